@@ -1602,7 +1602,11 @@ def _wrap_td_method(
     def deliver_result(self, result, kwargs):
         if result is None:
             return
-        if isinstance(result, TensorDictBase) and kwargs.get("out") is not result:
+        if (
+            isinstance(result, TensorDictBase)
+            and kwargs.get("out") is not result
+            and not is_non_tensor(result)
+        ):
             if not is_compiling():
                 non_tensordict = super(type(self), self).__getattribute__(
                     "_non_tensordict"
